@@ -1,6 +1,6 @@
 """C07 — String and binary fields, including computed lengths, decode as documented.
 
-E-prod end to end.  Variant layout: [PAD offset][LEN u8][LENC u8 (calibrated 2x)][SEL u2 + 6 pad][FIELD][SENT u8].
+E-prod end to end.  Variant layout: [PAD offset][LEN u8][LENC u8 (calibrated 2x)][LENH u8 (calibrated 0.5x)][SEL u2 + 6 pad][FIELD][SENT u8].
 Strings: charsets x delimiting {whole buffer, termination character (two choices), leading size 3/8/16}
 x length {fixed, discrete lookup, dynamic reference raw/calibrated with linear adjustment} x every
 content over a 5-symbol alphabet for buffers of <= 4 code units.  Binary: every length 0..40 bits.
@@ -116,6 +116,10 @@ def string_variants(cs, bo, tier):
                     continue
                 d = Dyn(ref, use_cal, adj[0] if adj else None, adj[1] if adj else None)
                 out.append((f"str:{dname}:dyn:{ref}:{'cal' if use_cal else 'raw'}:{adj}", StrEnc(d, cs, bo, term, lead), ("dyn", ref, use_cal, adj, extra)))
+        # a reference whose calibrated value is fractional (0.5 x raw): the length is slope * value + intercept, computed on the value as it is
+        for adj in ((16 * u, 0), (16 * u, 8 * u), (8 * u, 0)):
+            d = Dyn("LENH", True, adj[0], adj[1])
+            out.append((f"str:{dname}:dyn:LENH:cal:{adj}", StrEnc(d, cs, bo, term, lead), ("dyn", "LENH", True, adj, extra)))
     return out
 
 
@@ -131,6 +135,9 @@ def binary_variants(tier):
         for ref, use_cal in (("LEN", True), ("LEN", False), ("LENC", True), ("LENC", False)):
             d = Dyn(ref, use_cal, adj[0] if adj else None, adj[1] if adj else None)
             out.append((f"bin:dyn:{ref}:{'cal' if use_cal else 'raw'}:{adj}", BinEnc(d), ("dyn", ref, use_cal, adj, 0)))
+    for adj in ((8, 0), (16, 8), (4, 0), (2, 1), (1, 0), None):
+        d = Dyn("LENH", True, adj[0] if adj else None, adj[1] if adj else None)
+        out.append((f"bin:dyn:LENH:cal:{adj}", BinEnc(d), ("dyn", "LENH", True, adj, 0)))
     return out
 
 
@@ -142,6 +149,8 @@ def len_values(adj, use_cal, ref):
         vals = [0, 1, 2, 3, 4, 5]
     if ref == "LENC" and use_cal:
         vals = sorted(set(v // 2 for v in vals) | {v for v in vals if v <= 4})
+    if ref == "LENH":
+        vals = list(range(0, 11)) if adj and adj[0] <= 8 else list(range(0, 6)) if adj else [0, 1, 2, 3, 16, 17, 64]
     return vals
 
 
@@ -153,6 +162,12 @@ def length_from(kind, len_raw, sel):
         return kind[1][sel]
     _, ref, use_cal, adj, extra = kind
     v = (2 * len_raw if (ref == "LENC" and use_cal) else len_raw)
+    if ref == "LENH":
+        from fractions import Fraction
+        v = Fraction(len_raw, 2)
+        if adj:
+            v = adj[0] * v + adj[1]
+        return int(v) if v.denominator == 1 else -1   # non-integral: no sensible buffer, any packet will do
     if adj:
         v = adj[0] * v + adj[1]
     return v
@@ -163,15 +178,15 @@ def mk_doc(variants_chunk, offset, kind_of_type):
     for j, (label, enc, kind) in enumerate(variants_chunk):
         pt = PType(f"T{j}", kind_of_type, enc)
         pts = [pt, PType("LEN_T", "Integer", IntEnc(8)), PType("LENC_T", "Integer", IntEnc(8, default_cal=Poly(((2.0, 1),)))),
-               PType("SEL_T", "Integer", IntEnc(2)), PType("P6_T", "Integer", IntEnc(6)), PType("SENT_T", "Integer", IntEnc(8))]
-        prs = [Param("LEN", "LEN_T"), Param("LENC", "LENC_T"), Param("SEL", "SEL_T"), Param("P6", "P6_T"), Param(f"F_{j}", f"T{j}"),
+               PType("LENH_T", "Integer", IntEnc(8, default_cal=Poly(((0.5, 1),)))), PType("SEL_T", "Integer", IntEnc(2)), PType("P6_T", "Integer", IntEnc(6)), PType("SENT_T", "Integer", IntEnc(8))]
+        prs = [Param("LEN", "LEN_T"), Param("LENC", "LENC_T"), Param("LENH", "LENH_T"), Param("SEL", "SEL_T"), Param("P6", "P6_T"), Param(f"F_{j}", f"T{j}"),
                Param("SENT", "SENT_T")]
         ents = []
         if offset:
             pts.append(docs.pad_type(offset))
             prs.append(Param("PAD", f"PAD{offset}_T"))
             ents.append(("p", "PAD"))
-        ents += [("p", "LEN"), ("p", "LENC"), ("p", "SEL"), ("p", "P6"), ("p", f"F_{j}"), ("p", "SENT")]
+        ents += [("p", "LEN"), ("p", "LENC"), ("p", "LENH"), ("p", "SEL"), ("p", "P6"), ("p", f"F_{j}"), ("p", "SENT")]
         specs.append((pts, prs, ents))
     return docs.selector_doc(specs)
 
@@ -255,7 +270,7 @@ def _task(task):
         try:
             with case_alarm(600):
                 for sel, lv, fb in packets_for(label, enc, kind, cs, bo, offset, max_units, is_string):
-                    bits = "1" * offset + format(lv & 0xFF, "08b") + format(lv & 0xFF, "08b") + format(sel, "02b") + "000000" + fb + "10100101"
+                    bits = "1" * offset + format(lv & 0xFF, "08b") * 3 + format(sel, "02b") + "000000" + fb + "10100101"
                     bits += "0" * ((-len(bits)) % 8)
                     pkt = docs.packet_for(j, bits)
                     want = decode_packet(doc, pkt)
@@ -302,7 +317,7 @@ def run(ctx):
         "programs": tally.programs,
         "exhaustive": True,
         "bound": ("strings: 12 charset/byte-order configurations x {whole buffer, NUL terminator, 'X' terminator, leading size 3/8/16} x "
-                  "{fixed lengths incl. non-byte and long buffers (up to 42 bytes), discrete lookup (3 entries incl. value 0, and no match; and 3 entries with OVERLAPPING criteria decoded in several orders), dynamic reference LEN/LENC raw/calibrated x "
+                  "{fixed lengths incl. non-byte and long buffers (up to 42 bytes), discrete lookup (3 entries incl. value 0, and no match; and 3 entries with OVERLAPPING criteria decoded in several orders), dynamic reference LEN/LENC raw/calibrated and LENH (calibrated 0.5x: fractional values) x "
                   "adjustments (8,0),(8,8),(1,0),(1,-8),none} x "
                   f"bit offsets {offsets} x every content over a 5-symbol alphabet for <= {3 if ctx.quick else 4} code units (every size-tag value family); "
                   "binary: every fixed length 1..40 bits, lookup, dynamic lengths 0..40 bits, offsets 0..7, pattern family"),
